@@ -71,12 +71,12 @@ machines are related with the entry flags of the target state, otherwise the cur
 `entered` bit are untouched. -/
 theorem C02_body_partial (F : Frame inpS inpW δ) (hops : OpsSim env.ops inpS inpW δ K) (fs : FlagMap) (st : StateId)
     (loops : Bool) (b : Body) {d : Nat} {ab : Ab} (hok : bodyOk env.tbl fs st ab loops b = true)
-    (hfsP : ∀ i, (fs i).1.P = false) {ms mw : M κ}
+    {ms mw : M κ}
     (h : MRel δ d 0 ab .none ms mw) (hK : K d ms.x.sink mw.x.sink)
     (hd : d = 0 ∨ ∃ s, b = .seq s ∧ StartsWithText s.calls)
     (hin : BodyIn inpS inpW δ ms.c.nextPos b) :
     BodySim δ K fs st loops ms.c (runBody env inpS b ms) (runBody env inpW b mw) :=
-  runBody_sim F hops fs st loops b hok hfsP h hK hd hin
+  runBody_sim F hops fs st loops b hok h hK hd hin
 
 /-- **Look-ahead horizon** (`ch_sequence_arm_pattern!`): the verdict is the same in both runs, unless the
 split input ends first, in which case the split run needs more input. -/
